@@ -230,7 +230,10 @@ func runProgramIn(ast MalType, cancelAt int, script string, names []string, chil
 		defer stepMu.Unlock()
 		lisp.ResetStepperFlags()
 		i := 0
+		var cbMu sync.Mutex // futures started by the program call the hook from their own goroutines
 		lisp.Stepper = func(a MalType, ns EnvType) debuggertypes.Command {
+			cbMu.Lock()
+			defer cbMu.Unlock()
 			calls = append(calls, render(a))
 			if i >= len(script) {
 				return debuggertypes.NoOp
